@@ -391,6 +391,10 @@ class Driver:
             os.chdir(sim.root)
             screen_arg, out_arg = os.path.relpath(sim.screen, sim.root), os.path.relpath(sim.outdir, sim.root)
         argv = ["batchie.py", "--mode", sim.cfg["mode"], "--screen", screen_arg, "--batch-size", str(sim.cfg["batch"]), "--outdir", out_arg, "--n_chains", str(sim.cfg["n_chains"])]
+        if sim.cfg.get("omit_batch_size"):
+            # batch size 1 is the documented default: the operator does not spell it out
+            i_ = argv.index("--batch-size")
+            del argv[i_ : i_ + 2]
         old = sys.argv
         sys.argv = argv
         try:
@@ -593,6 +597,11 @@ def configurations(tier, rng):
             cfgs.append({"mode": "retrospective", "plates": p, "batch": b, "n_chains": 1 + (p + b + os_) % 2, "n_chunks": 1 + (p + os_) % 2, "order_seed": os_})
         for b, k in pro:
             cfgs.append({"mode": "prospective", "plates": max(6, b + 2), "batch": b, "invocations": k, "n_chains": 1 + (b + os_) % 2, "n_chunks": 1 + (k + os_) % 2, "order_seed": os_})
+    n1 = 0
+    for c in cfgs:
+        if c["batch"] == 1:
+            n1 += 1
+            c["omit_batch_size"] = bool(n1 % 2)  # every second batch-size-1 configuration relies on the default
     for i, c in enumerate(cfgs):
         c["relative_paths"] = bool(i % 2)  # every second configuration names the screen and the output directory relative to the working directory
         if i % 4 >= 2:
